@@ -133,7 +133,8 @@ class ExpandedTraceback:
         self.full_traceback = full_traceback
         self.hide_filenames = hide_filenames
         self.show_filenames = show_filenames
-        self.line_number = traceback.extract_tb(exc_info[2])[-1][1]
+        last_frame = traceback.extract_tb(exc_info[2])[-1]
+        self.line_number = last_frame[1] + line_offsets.get(last_frame[0], 0)
         self.original_code_lines = original_code_lines
         self.student_files = student_files
 
